@@ -141,8 +141,24 @@ func genXm(r *core.Rand, pr Profile, sec bool, mayClose bool, seqMode bool) stri
 			rs = "pass"
 		}
 	}
+	capUnread := func() {
+		rb = r.Range(0, 2000)
+		for i := range kv {
+			if strings.HasPrefix(kv[i], "rb=") {
+				kv[i] = fmt.Sprintf("rb=%d", rb)
+			}
+		}
+	}
+	if (rq == "skip" || rq == "errskip") && rb > 2000 && askedClose(pv, ct) {
+		// nobody reads the body of a request whose round trip is skipped; when the connection is closed
+		// right after the response the kernel answers the unread upload with RST, which can destroy the
+		// response on its way (the same transport artefact as with pipelined batches, DESIGN section 7 b):
+		// keep such uploads inside what the proxy has read together with the head
+		capUnread()
+	}
 	kv = append(kv, "rq="+rq, "rs="+rs)
 	kv = append(kv, errKinds(r, rq, rs)...)
+	kv = append(kv, consulted(r, rq != "pass" || rs != "pass")...)
 	o := "ok"
 	if pr.Faults {
 		switch r.Intn(5) {
@@ -156,6 +172,9 @@ func genXm(r *core.Rand, pr Profile, sec bool, mayClose bool, seqMode bool) stri
 	}
 	if !mayClose && o == "trunc" {
 		o = "fail"
+	}
+	if o == "fail" && rb > 2000 && askedClose(pv, ct) { // same: a failed round trip leaves the upload unread
+		capUnread()
 	}
 	ob := bodyLen(r, pr.BigBodies)
 	of := r.Pick("cl", "cl", "ch", "ch", "close")
@@ -188,6 +207,10 @@ func genXm(r *core.Rand, pr Profile, sec bool, mayClose bool, seqMode bool) stri
 		fk := r.Pick("none", "head", "garbage")
 		if seqMode && !sec && r.Chance(1, 3) {
 			fk = r.Pick("refuse", "dtimeout")
+		}
+		if seqMode && sec && r.Chance(1, 2) { // the https target's port does not hold a usable TLS server
+			fk = r.Pick("tlsplain", "tlsplain", "tlsbadcert", "tlsclose")
+			core.Count("upfault:" + fk)
 		}
 		kv = append(kv, "fk="+fk, fmt.Sprintf("k=%d", r.Range(1, 60)))
 	case "trunc":
@@ -253,10 +276,42 @@ func errKinds(r *core.Rand, rq, rs string) []string {
 	return kv
 }
 
+// consulted picks the headers the proxy itself looks at (consulted.go): Date lines on either side and
+// a Warning that is already there; more often when a modifier is going to add its own.
+func consulted(r *core.Rand, likely bool) []string {
+	var kv []string
+	den := 12
+	if likely {
+		den = 2
+	}
+	if r.Chance(1, den) {
+		k := DateKinds[r.Intn(len(DateKinds))]
+		kv = append(kv, "dt="+k)
+		core.Count("consulted:request-date-" + k)
+	}
+	if r.Chance(1, den) {
+		k := DateKinds[r.Intn(len(DateKinds))]
+		kv = append(kv, "odt="+k)
+		core.Count("consulted:response-date-" + k)
+	}
+	if r.Chance(1, 2*den) {
+		kv = append(kv, "wp=1")
+	}
+	if r.Chance(1, 2*den) {
+		kv = append(kv, "owp=1")
+	}
+	return kv
+}
+
 // genConnect emits one MITM CONNECT item with scripted modifier behaviours.
 func genConnect(r *core.Rand, pr Profile, tls bool) string {
 	rq, rs := genMods(r, pr)
 	return strings.TrimSpace(fmt.Sprintf("cmitm tls=%s rq=%s rs=%s %s", b01(tls), rq, rs, strings.Join(errKinds(r, rq, rs), " ")))
+}
+
+// genFailedConnect: a MITM CONNECT whose tunnel starts with a TLS handshake that fails (hsfail.go).
+func genFailedConnect(r *core.Rand, pr Profile) string {
+	return genConnect(r, pr, true) + " hf=" + HandshakeFailKinds[r.Intn(len(HandshakeFailKinds))]
 }
 
 func genMods(r *core.Rand, pr Profile) (string, string) {
@@ -286,8 +341,18 @@ func GenCase(r *core.Rand, pr Profile) []string {
 		core.Count("wire:differential-op-cases")
 		return GenWireOps(r, 12)
 	}
+	if pr.Modifiers && r.Chance(1, 40) {
+		core.Count("consulted:differential-op-cases")
+		return GenConsultedOps(r, 12)
+	}
 	if r.Chance(1, 12) {
 		return genEarlyCase(r, pr)
+	}
+	if pr.Rich && r.Chance(1, 150) {
+		return GenLongCase(r, r.Range(1001, 2200))
+	}
+	if pr.Rich && r.Chance(1, 200) {
+		return GenSlowCase(r)
 	}
 	n := r.Range(1, 6)
 	tunnel := pr.Tunnels && r.Chance(2, 3)
@@ -336,6 +401,12 @@ func GenCase(r *core.Rand, pr Profile) []string {
 			depth = r.Range(2, 3)
 		}
 		for d := 0; d < depth; d++ {
+			for r.Chance(1, 3) { // handshakes that fail first: the connection goes on as it was
+				ops = append(ops, genFailedConnect(r, pr))
+				for i := r.Intn(2); i > 0; i-- {
+					ops = append(ops, genX(r, pr, secure, true))
+				}
+			}
 			inner := r.Chance(3, 4)
 			ops = append(ops, genConnect(r, pr, inner))
 			secure = secure || inner
@@ -366,6 +437,9 @@ func GenCase(r *core.Rand, pr Profile) []string {
 		}
 		listener := r.Pick("mitm", "mitm", "shapedmitm", "tlsmitm")
 		ops = append(ops, "conn mode=seq listener="+listener+" shutdown=0"+tflip(r, listener))
+		if r.Chance(1, 3) { // a tunnel whose handshake fails, then one that carries plain HTTP
+			ops = append(ops, genFailedConnect(r, pr))
+		}
 		ops = append(ops, genConnect(r, pr, false))
 		for i := 0; i < n; i++ {
 			ops = append(ops, genX(r, pr, listenerTLS(listener), true))
@@ -432,6 +506,35 @@ func genEarlyCase(r *core.Rand, pr Profile) []string {
 		core.Count("early:generated")
 		ops = append(ops, strings.Join(kv, " "))
 	}
+	return append(ops, "end")
+}
+
+// GenLongCase: a long keep-alive history - n tiny exchanges on one connection, one at a time or
+// pipelined in one write (bodiless requests, small responses, a fast origin). Nobody asks to close,
+// so every one of them must be answered and the connection must still be usable afterwards.
+func GenLongCase(r *core.Rand, n int) []string {
+	mode := r.Pick("seq", "pipe")
+	ops := []string{"conn mode=" + mode + " listener=plain shutdown=0"}
+	for i := 0; i < n; i++ {
+		ops = append(ops, fmt.Sprintf("x m=GET tf=%s pv=11 ct=- hs=%d hdr=0 ohdr=0 rb=0 rf=cl rq=pass rs=pass o=ok st=200 ob=%d of=%s opv=11 oct=- gz=0",
+			r.Pick("abs", "origin"), i+1, r.Intn(4), r.Pick("cl", "cl", "ch")))
+	}
+	core.Count("long:" + mode)
+	return append(ops, "end")
+}
+
+// GenSlowCase: the proxy's idle timeout is short, every origin response takes less than it, the
+// whole batch takes more: the deadline is per request, so nothing may be lost - pipelined (the next
+// request is already buffered when a response is done) or one at a time.
+func GenSlowCase(r *core.Rand) []string {
+	mode := r.Pick("pipe", "pipe", "seq", "half")
+	ops := []string{"conn mode=" + mode + " listener=plain shutdown=0 to=2000"}
+	n := r.Range(5, 6)
+	for i := 0; i < n; i++ {
+		ops = append(ops, fmt.Sprintf("x m=GET tf=abs pv=11 ct=- hs=%d hdr=1 ohdr=1 rb=0 rf=cl rq=pass rs=pass o=ok st=200 ob=%d of=%s opv=11 oct=- gz=0 lat=%d",
+			i+1, r.Range(1, 300), r.Pick("cl", "ch"), r.Range(480, 560)))
+	}
+	core.Count("slow:" + mode)
 	return append(ops, "end")
 }
 
